@@ -68,6 +68,7 @@ type Options struct {
 	Mon            *Monitor
 	NoSite         bool // do not symbolise the rejecting call site (saves ~50us)
 	LumpBits       bool // dishonest gnark bit-decomposition hint: digits := (value, 0, 0, ...)
+	KeepChipCache  bool // do not empty the repository's process-wide chip cache around this run (as in a long-lived process)
 }
 
 type Result struct {
@@ -597,7 +598,9 @@ func Leaves(c frontend.Circuit) (vals []reflect.Value, names []string, err error
 // Run evaluates template.Define on the assignment's leaf values.
 func Run(template, assignment frontend.Circuit, opt Options) (res Result) {
 	e := &Engine{q: fr.Modulus(), kv: map[any]any{}, opt: &opt, res: &res, mon: opt.Mon}
-	gl.VerifResetChips()
+	if !opt.KeepChipCache {
+		gl.VerifResetChips()
+	}
 	if opt.ForceBitDecomp {
 		old, had := os.LookupEnv("USE_BIT_DECOMPOSITION_RANGE_CHECK")
 		os.Setenv("USE_BIT_DECOMPOSITION_RANGE_CHECK", "true")
@@ -622,7 +625,11 @@ func Run(template, assignment frontend.Circuit, opt Options) (res Result) {
 			res.Site = repoSite(4, 3)
 		}
 	}()
-	defer gl.VerifResetChips()
+	defer func() {
+		if !opt.KeepChipCache {
+			gl.VerifResetChips()
+		}
+	}()
 
 	avals, _, err := Leaves(assignment)
 	if err != nil {
